@@ -189,7 +189,7 @@ def main(ctx, args):
         "Model/Interner.lean models the PROTOCOL of interner.rs (every API call one atomic step on append-only tables); the compiler proper is not modelled",
         "threads obtain ids only as results of their own earlier calls (handles)",
         "real schedules are SAMPLED (OS scheduler, K in {2,4,8,16}, barrier start + seeded jitter), not enumerated; the theorems quantify over all schedules of the model only",
-        "type-variable cells (Arc<RwLock<TypeVar>>) are per compilation and not modelled; Symbol::as_str lifetime extension (F8) is outside the model",
+        "type-variable cells (Arc<RwLock<TypeVar>>) are per compilation and not modelled; Symbol::as_str lifetime extension: modelled as slices into the interner's buckets (C19_as_str_slices_stay_valid), the backend pinned by the translator and probed on the real interner (`c19 asstr`)",
         "each thread's result is compared with the result of the same source compiled alone in a fresh process (all artefacts of C15: diagnostics, bytecode, WASM, MIR, skeleton, 32 VM samples, Rust), raw-id listings (F17) and type-scheme numbering (F20) normalised as in C15",
     ]
     known = load_known("C19")
@@ -257,6 +257,12 @@ def main(ctx, args):
         for p in f8_hits[:2]:
             ctx.notes.append({"F8_case": {k2: p[k2] for k2 in ("round", "threads", "thread", "job", "target", "differs_in")},
                               "diag": open(p["dump"] + ".diag", errors="replace").read()[:300]})
+    elif probe.get("slices_left_dangling"):
+        # F8 is repaired in /repo (bucket backend: interned text never moves). A slice whose text moved is the defect back:
+        # a compilation that holds `sym.as_str()` across another thread's interning reads freed memory
+        ctx.violation("a `Symbol::as_str` slice is left dangling by concurrent interning: " + probe.get("first", "")[:200],
+                      dict(probe, kind="as_str-slice-dangles", threads=8, rounds=300, replay_cmd="target/debug/c19 asstr 8 300",
+                           what_to_look_at="third column of the @@ASSTR line = held slices whose text moved"))
     if real:
         best = min(real, key=lambda p: os.path.getsize(p["target"]) if os.path.exists(p["target"]) else 1 << 30)
         srcs = {q: open(q, errors="replace").read() for q in best["paths"] if os.sep + "C19gen" + os.sep in q and os.path.exists(q)}
